@@ -1,6 +1,6 @@
 """C09 -- cumulative intensity measures: length, monotonicity, scaling laws, quadrature kind (typing obligations)."""
 from ..tyob import *  # noqa
-from ..tyob import analyse, expect, unmodelled_in, const_values, check_forwarder
+from ..tyob import analyse, expect, unmodelled_in, const_values, check_forwarder, only_managed_reads
 
 ACC = "eqsig.single.AccSignal"
 #            function                               deg(R) deg(DT)  quadrature tags (has / not)            source tags
@@ -33,6 +33,7 @@ def run(chk):
         r = analyse(chk, q, sig_arg(chk.P.fn(q).params[0]))
         c = "%s:%s" % (r.fi.module.relpath, r.fi.name)
         unmodelled_in(r, chk, "R-IM-TYPE", c)
+        only_managed_reads(chk, "R-IM-TYPE", r, c)
         expect(chk, "R-IM-TYPE", c, r.ret, length="n", mono=0, sign="nonneg", deg={R: dr, DT: dd}, parity={R: "even"},
                tags_has=has + ["attr:_values", "attr:_dt"], tags_not=hasnot, kind=K_ARRAY, loc=r.fi.loc())
     check_forwarder(chk, "R-IM-TYPE", "eqsig.im.calc_cumulative_abs_displacement", "eqsig.im.calc_integral_of_abs_velocity")
@@ -54,6 +55,7 @@ def run(chk):
     r = analyse(chk, "eqsig.im.calc_cav_dp", sig_arg("asig"))
     c = "eqsig/im.py:calc_cav_dp"
     unmodelled_in(r, chk, "R-CAVDP", c)
+    only_managed_reads(chk, "R-CAVDP", r, c)
     expect(chk, "R-CAVDP", c, r.ret, length="n", mono=0, sign="nonneg", kind=K_ARRAY,
            tags_has=["quad:trapezoid", "abs", "interp:linear", "attr:_values", "attr:_dt"], loc=r.fi.loc())
     cs = const_values(r.fi, chk.P)
